@@ -50,6 +50,7 @@ structure NetCfg where
   defaultMtu : Nat := 1475
   pcap     : Bool := false
   dns      : List (String × (Ec × List String × Int)) := []   -- name ↦ (error, addresses, latency)
+  defaultConfig : Bool := false     -- the scenario runs on `sim::default_config` (declared `config default`)
   deriving Repr
 
 def lookupStar (tbl : List (String × List String)) (k : String) : List String :=
